@@ -43,7 +43,7 @@ def run(ctx):
     ntr = 300 if q else 4000
     ctx.harness(['C11', 'record', '-seed', str(ctx.seed), '-n', str(ntr), '-out', ctx.path('trace.ndjson')])
     rejects = ctx.validate_traces('Trace_MainLoop', 'Trace_MainLoop', 'trace.ndjson', label='trace-mainloop',
-                                  corrupt_event=corrupt_event, timeout=2400)
+                                  corrupt_event=corrupt_event, timeout=2400, parallel=ctx.cores)
     for r in rejects:
         ev = r['trace'][r['pos']]
         exp = r['info'].get('expected')
